@@ -123,6 +123,15 @@ def evaluate__parenthesized_expression(self: XPathToken, context: ta.ContextType
                                    for tk in func]
                 else:
                     func._items = list(args)
+
+                if func.symbol == 'function':
+                    # an inline function: the function conversion rules apply to the fixed
+                    # arguments when the partial application is evaluated
+                    for k, tk in enumerate(func):
+                        if tk.symbol == '(value)' and k < len(func.varnames):
+                            tk.value = func.convert_argument(
+                                tk.value, func.varnames[k], func.sequence_types[k], context
+                            )
                 func.to_partial_function()
                 return func
 
